@@ -414,3 +414,11 @@ Proof.
   destruct X as (y1 & y2 & y3 & y4 & d1 & m1 & m2 & d2 & a1 & a2 & Q). rewrite Q in *.
   apply (datetime_built _ _ _ _ _ _ _ _ _ _ d h n sec P V Hh Hn Hs).
 Qed.
+
+(* ------------------------------------------------------------------------------------------ *)
+(* floats: one optional minus only                                                             *)
+(* ------------------------------------------------------------------------------------------ *)
+Lemma canonical_float_one_minus :
+  canonical_float [x2d; x2d; x31] = false /\ canonical_float [x2d; x2d; x31; x2e; x35] = false /\
+  canonical_float [x2d; x31] = true /\ canonical_float [x2d; x31; x2e; x35] = true /\ canonical_float [x30] = true.
+Proof. vm_compute. auto. Qed.
